@@ -26,9 +26,13 @@ func Verif_c18_quote() {
 	verifNoNul(s)
 	verifAlpha(s)
 	verifAssume(utf8.ValidString(s))
+	mode := EntireString
+	if verifParam("ext") != 0 {
+		mode |= ExtendedOperators
+	}
 	q := QuoteMeta(s, 0)
 	verifAssert(!HasMeta(q, 0), "QuoteMeta result still has metacharacters")
-	expr, err := Regexp(q, EntireString)
+	expr, err := Regexp(q, mode)
 	verifAssert(err == nil, "QuoteMeta result is not a valid pattern")
 	if err != nil {
 		return
@@ -72,7 +76,11 @@ func Verif_c18_nometa() {
 	verifAlpha(p)
 	verifAssume(utf8.ValidString(p))
 	verifAssume(!HasMeta(p, 0))
-	expr, err := Regexp(p, EntireString)
+	mode := EntireString
+	if verifParam("ext") != 0 {
+		mode |= ExtendedOperators
+	}
+	expr, err := Regexp(p, mode)
 	if err != nil {
 		verifReach("pattern-error")
 		verifReach("end")
